@@ -46,7 +46,11 @@ def run(tier):
         for lib in libs:
             if lib["language"] != "c++" or nlib >= (160 if thorough else 3):
                 continue
-            cs = libgen.cases_of(lib)
+            # rows the C driver can call (a std::vector argument has no plain C form)
+            cs = libgen.cases_of(lib, {k for k, r in K.ROWS.items() if "c_decl" in r},
+                                 {k for k, r in K.RESULTS.items() if "c_decl" in r or r["ty"] == "none"})
+            if not cs:
+                continue
             opts = libgen.driver_options(lib)
             opts.pop("F_CFI")
             configs.append(("libgen%d" % nlib, opts, [], cs, lib["class"]))
